@@ -296,6 +296,26 @@ template <> struct eigendecomposition_impl<SparseWeightMatrix>
     }
 };
 
+#ifdef TAPKEE_VERIF
+//! verification hook: an optional process-global observer that sees the matrices handed to
+//! the eigensolver through the public API path together with what the solver returned
+struct verif_eigen_observer
+{
+    typedef void (*callback)(const DenseMatrix& lhs, const DenseMatrix& rhs, const EigendecompositionResult& result,
+                             IndexType target_dimension, unsigned int skip, bool smallest, bool generalized);
+    static callback& get()
+    {
+        static callback observer = NULL;
+        return observer;
+    }
+    static bool& busy()
+    {
+        static bool flag = false;
+        return flag;
+    }
+};
+#endif
+
 //! Multiple implementation handler method for various eigendecomposition methods.
 //!
 //! Has three template parameters:
@@ -329,6 +349,28 @@ EigendecompositionResult eigendecomposition(const EigenMethod& method, const Com
                                             const EigendecompositionStrategy& eigen_strategy, const MatrixType& m,
                                             IndexType target_dimension)
 {
+#ifdef TAPKEE_VERIF
+    if (verif_eigen_observer::get() && !verif_eigen_observer::busy())
+    {
+        verif_eigen_observer::busy() = true;
+        EigendecompositionResult observed;
+        try
+        {
+            observed = eigendecomposition(method, strategy, eigen_strategy, m, target_dimension);
+        }
+        catch (...)
+        {
+            verif_eigen_observer::busy() = false;
+            verif_eigen_observer::get()(DenseMatrix(m), DenseMatrix(), EigendecompositionResult(), target_dimension,
+                                        eigen_strategy.skip(), eigen_strategy.is(SmallestEigenvalues), false);
+            throw;
+        }
+        verif_eigen_observer::busy() = false;
+        verif_eigen_observer::get()(DenseMatrix(m), DenseMatrix(), observed, target_dimension, eigen_strategy.skip(),
+                                    eigen_strategy.is(SmallestEigenvalues), false);
+        return observed;
+    }
+#endif
     Logging::instance().message_info(fmt::format("Using the {} eigendecomposition method.", get_eigen_method_name(method)));
 #ifdef TAPKEE_WITH_ARPACK
     if (method.is(Arpack))
